@@ -38,6 +38,11 @@ def gen_case(ctx, rng):
 def check_run(resp, run):
     out = []
     nconst = 0
+    o = run.get("out", {})
+    if "error" in o and "divide by zero" in o["error"]:
+        # these programs contain no `!`: an unhandled division is only accepted when the compiler
+        # decided from a constant divisor that it cannot fail
+        out.append(("constant_decision:division", {"error": o["error"][:200]}))
     probes = resp.get("probes", {})
     for t, hs in run.get("hits", {}).items():
         p = probes.get(t)
@@ -59,8 +64,13 @@ CULPRITS = ["del_var_path", "var_path_assign", "map_keys", "map_values", "filter
             "assign2", "massign", "op??", "op||", "op&&", "if"]
 
 
-def classify(small):
+def classify(small, where=""):
     kinds = fc.interesting_kinds(small)
+    if where.startswith("constant_decision"):
+        cul = [c for c in CULPRITS if c in kinds]
+        if any(c in ("map_keys", "map_values", "filter", "for_each", "closure") for c in cul):
+            return "stale_constant:closure"
+        return "infallible_division_failed:%s" % (cul[0] if cul else "operand_side_effect")
     cul = [c for c in CULPRITS if c in kinds]
     if "closure" in cul and len(cul) > 1:
         cul.remove("closure")
@@ -106,6 +116,6 @@ def run_case(ctx, case):
         small = cc.shrink_full(stmts, still, budget=200)
         _, r2 = fc.run_full(ctx, small, [event])
         b2 = (check_run(r2, r2["runs"][0])[0] if r2.get("compiled") else bad) or bad
-        ctx.violation(classify(small), {"src": A.program_src(small), "event": repr(event)[:300],
+        ctx.violation(classify(small, b2[0][0]), {"src": A.program_src(small), "event": repr(event)[:300],
                                         "where": b2[0][0], "detail": b2[0][1]},
                       case={"stmts": small, "events": [enc(event)], "probe_info": {}})
